@@ -143,7 +143,11 @@ where
     /// Return the state with a new constraint
     pub fn with_constraint(mut self, constraint: Rc<dyn Constraint<U, E>>) -> State<U, E> {
         U::with_constraint(&mut self, &constraint);
-        self.cstore_to_mut().push_and_normalize(constraint);
+        let dropped = self.cstore_to_mut().push_and_normalize(constraint);
+        for dropped_constraint in dropped.iter() {
+            // Constraints dropped as redundant have been removed from the state.
+            U::take_constraint(&mut self, dropped_constraint);
+        }
         self
     }
 
